@@ -12,7 +12,7 @@ from fractions import Fraction
 
 from .. import symx, terms as T
 from ..frontend import AnalysisError
-from ..rules import ret_term, outcomes, find_calls, radians_of_angle, refusal_check, cmp_is, timearg_scan
+from ..rules import ret_term, outcomes, find_calls, radians_of_angle, refusal_check, cmp_is, timearg_scan, stateless_scan
 from .. import units, guards, effects
 
 MANIFEST = {
@@ -116,11 +116,14 @@ def run(repo, rep, tier):
     minor(repo, rep)
     minor_time_symmetry(repo, rep)
     fam = [(p, p + ".geocentric_position") for p in PLANETS] + [("Pluto", "Pluto.geocentric_position"), ("Pluto", "Pluto.geometric_heliocentric_position"),
-           ("Minor", "Minor.geocentric_position"), ("Minor", "Minor.heliocentric_ecliptical_position"), ("Minor", "Minor._near_parabolic"), ("Minor", "Minor.set")]
+           ("Minor", "Minor.geocentric_position"), ("Minor", "Minor.heliocentric_ecliptical_position"), ("Minor", "Minor._near_parabolic"), ("Minor", "Minor.set"),
+           # the Sun/Earth vector Pluto and the minor bodies are referred to: must depend on its epoch argument only
+           ("Sun", "Sun.rectangular_coordinates_j2000")]
     timearg_scan(repo, rep, fam)
     units.check_functions(repo, rep, fam)
     guards.check_functions(repo, rep, fam)
     effects.check_functions(repo, rep, fam)
+    stateless_scan(repo, rep, fam)
     return "other"
 
 
